@@ -75,7 +75,7 @@ def bounds(tier):
 def plan(tier, seed):
     parts = 4 if tier == 'quick' else 16
     return [{'k': 'plid', 'part': p, 'parts': parts, 'tier': tier} for p in range(parts)] + \
-        [{'k': 'bmc', 'tier': tier}, {'k': 'id', 'tier': tier}, {'k': 'id_junk'}, {'k': 'src'}, {'k': 'srcx'}, {'k': 'perm', 'tier': tier}, {'k': 'subproc'}]
+        [{'k': 'bmc', 'tier': tier}, {'k': 'id', 'tier': tier}, {'k': 'id_junk'}, {'k': 'bmc_junk'}, {'k': 'src'}, {'k': 'srcx'}, {'k': 'perm', 'tier': tier}, {'k': 'subproc'}]
 
 
 def build(d, entries=None):
@@ -111,7 +111,10 @@ def eval_case(case, d=None):
             for name, kind in case.get('junk', []):
                 with open(os.path.join(dd, name), 'wb') as f:
                     f.write({'json': b'{\n    "Private Header": {}\n}\n', 'empty': b'', 'random': bytes(range(7, 90)),
-                             'truncated': pelgen.encode_pel(pelgen.pel_from_spec(DIR[0][1]))[:60]}[kind])
+                             'truncated': pelgen.encode_pel(pelgen.pel_from_spec(DIR[0][1]))[:60],
+                             # complete Private Header (with the BMC id of DIR[1]) followed by something that is not a User Header
+                             'ph-only': (lambda b: b[:48] + b'XH' + b[50:])(pelgen.encode_pel(pelgen.pel_from_spec(DIR[1][1]))),
+                             'ph-then-junk': pelgen.encode_pel(pelgen.pel_from_spec(DIR[1][1]))[:48] + bytes(range(64))}[kind])
             return eval_case(case, dd)
     entries = DIR if 'files' not in case else [DIR[i] for i in case['files']]
     q, arg = case['q'], case['arg']
@@ -272,6 +275,16 @@ def run_chunk(chunk):
                         # an id that only the junk file carries
                         _do(res, None, {'q': 'id', 'arg': '7000000A', 'order': order, 'files': files,
                                         'junk': [['20230715_7000000A' + ('.json' if kind == 'json' else ''), kind]]})
+        elif k == 'bmc_junk':
+            # a damaged file whose Private Header carries BMC id N is not "a PEL whose BMC event log id is N"
+            n = str(DIR[1][2]['obmc'])
+            for kind in ('ph-only', 'ph-then-junk'):
+                for order in ('sorted', 'reversed'):
+                    for jn in ('00000000_junk', 'zzzzzzzz_junk'):
+                        # next to the PEL with that id: sorting before it and after it
+                        _do(res, None, {'q': 'bmc', 'arg': n, 'order': order, 'files': [0, 1, 12], 'junk': [[jn, kind]]})
+                        # the damaged file is the only carrier of the id
+                        _do(res, None, {'q': 'bmc', 'arg': n, 'order': order, 'files': [0, 12], 'junk': [[jn, kind]]})
         elif k == 'src':
             subs = set()
             for c in CODES:
